@@ -816,3 +816,56 @@ def d10_return_in_for(f, ordinal, ret_ty):
     f.text = out
     f.log.rule('D10', f, '%d `return E;` in for-loop #%d -> flag + break' % (len(edits), ordinal))
     return f
+
+
+def d11_iter_any(f):
+    """D11: RECV.iter().any(|p| BODY)  ->  { let mut verif_anyK = false; for p in RECV.iter() { if BODY { verif_anyK = true; break; } } verif_anyK }
+    (definition of Iterator::any incl. short-circuit; vstd specifies only the `true` direction of any())."""
+    n = 0
+    while True:
+        t = f.text
+        mask = code_mask(t)
+        # innermost first: take the LAST occurrence
+        ms = [m for m in re.finditer(r'\.iter\(\)\s*\.any\(\|(\w+)\|', t) if mask[m.start()]]
+        if not ms:
+            break
+        m = ms[-1]
+        # closure body: up to the paren matching `.any(`
+        po = t.index('(', m.start() + len('.iter()'))
+        po = t.index('.any(', m.start()) + 4
+        pc = _match_paren(t, mask, po)
+        body = t[m.end():pc].strip()
+        # receiver: scan backwards over a postfix chain
+        k = m.start()
+        depth = 0
+        while k > 0:
+            c = t[k - 1]
+            if c in ')]':
+                depth += 1
+            elif c in '([':
+                if depth == 0:
+                    break
+                depth -= 1
+            elif depth == 0 and not (c.isalnum() or c in '_.' or c.isspace()):
+                break
+            k -= 1
+        recv = t[k:m.start()]
+        lead = re.match(r'\s*', recv).group(0)
+        recv_s = re.sub(r'\s+', '', recv)
+        if not recv_s or recv_s in ('return', 'let'):
+            f._lost('D11: receiver not understood')
+        # `let x = recv` / `return recv`: keywords are alnum too - cut them off
+        kw = re.match(r'(\s*(?:return|in|if|while|match)\s+)(.*)$', recv, re.S)
+        if kw:
+            lead = kw.group(1)
+            recv_s = re.sub(r'\s+', '', kw.group(2))
+        var = 'verif_any%d' % n
+        ind = re.search(r'[ \t]*$', t[:t.rfind('\n', 0, k) + 1] + re.match(r'[ \t]*', t[t.rfind('\n', 0, k) + 1:]).group(0)).group(0) + '    '
+        new = ('%s{\n%s    let mut %s = false;\n%s    for %s in %s.iter() {\n%s        if %s {\n%s            %s = true;\n%s            break;\n%s        }\n%s    }\n%s    %s\n%s}'
+               % (lead, ind, var, ind, m.group(1), recv_s, ind, body, ind, var, ind, ind, ind, ind, var, ind))
+        f.text = t[:k] + new + t[pc + 1:]
+        n += 1
+    if n == 0:
+        f._lost('D11 .iter().any(..)')
+    f.log.rule('D11', f, '%d .iter().any(closure) -> flag loop' % n)
+    return f
